@@ -24,7 +24,8 @@ PRISTINE_JSON = json.dumps(PRISTINE, sort_keys=True)
 # ------------------------------------------------------------------------------------------------
 def urlkey(plan):
     return json.dumps([plan['app'], plan['path'], plan.get('method', 'GET'), plan.get('qs', ''),
-                       plan.get('ctype', ''), _mask(plan.get('body') or ''), plan.get('redirect_to', '')])
+                       plan.get('ctype', ''), _mask(plan.get('body') or ''), plan.get('redirect_to', ''),
+                       sorted((f['at'], f['exc']) for f in plan.get('faults') or ()), bool(plan.get('abandon'))])
 
 
 def _mask(s):
@@ -61,7 +62,8 @@ def baseline_plans(case):
 def summarize(rec, tok):
     """What a call observed and answered, normalised: comparable across processes."""
     return [[[s['stage'], normalise(s['contents'], tok)] for s in rec['snaps']], rec['status'],
-            normalise(canon_wsgi_headers(rec['wsgi_headers']), tok), _mask(rec['body'] or ''), rec['exc']]
+            normalise(canon_wsgi_headers(rec['wsgi_headers']), tok), _mask(rec['body'] or ''),
+            _mask(rec['exc']) if rec['exc'] else rec['exc']]
 
 
 def lone_request(site_desc, bp):
@@ -69,6 +71,16 @@ def lone_request(site_desc, bp):
     site = S.Site(site_desc)
     del S.EVENTS[:]
     return summarize(S.do_call(site, bp, _nopark), bp['token'])
+
+
+def deep_check(site, pristine, rec):
+    """Compare the long-lived state with what it was right after the site was built; the first differences go
+    into the record of the call that has just finished."""
+    now = S.deep_state(site)
+    if now != pristine:
+        rec['deep_diff'] = diff_paths(json.loads(json.dumps(now, sort_keys=True)),
+                                      json.loads(json.dumps(pristine, sort_keys=True)), limit=4)
+    return now
 
 
 class _Abort(BaseException):
@@ -79,8 +91,9 @@ MAX_SNAPS = 40       # a sane call takes <= ~14 snapshots; leaked probe hooks do
 
 
 class Controller(object):
-    def __init__(self, site, plans, nthreads, assign):
+    def __init__(self, site, plans, nthreads, assign, deep=None):
         self.aborted = False
+        self.deep = deep
         self.site = site
         self.plans = plans
         self.queues = [[i for i, t in enumerate(assign) if t == k] for k in range(nthreads)]
@@ -113,6 +126,8 @@ class Controller(object):
                     self._wait_go(k)
                     self.trace.append((k, i, 'resume:' + stage))
                 self.records[i] = S.do_call(self.site, self.plans[i], park)
+                if self.deep is not None:
+                    deep_check(self.site, self.deep, self.records[i])
                 self.trace.append((k, i, 'done'))
                 if len(self.records[i]['snaps']) > MAX_SNAPS:
                     self.aborted = True
@@ -172,10 +187,12 @@ def execute(case):
     plans = case['plans']
     baselines = {}
     blown = False
+    deep = S.deep_state(site)
     for k, bp in baseline_plans(case).items():
         if True:
             S.CUR.plan = None
             baselines[k] = (bp, S.do_call(site, bp, _nopark))
+            deep_check(site, deep, baselines[k][1])
             if len(baselines[k][1]['snaps']) > MAX_SNAPS:
                 blown = True
                 break
@@ -187,7 +204,7 @@ def execute(case):
                 'events': list(S.EVENTS),
                 'class_after_baseline': class_after_baseline, 'class_after': S.class_level_fingerprint(),
                 'apps_after': [site.app_state(i) for i in range(len(site.apps))]}
-    ctl = Controller(site, plans, case['nthreads'], case['assign'])
+    ctl = Controller(site, plans, case['nthreads'], case['assign'], deep)
     ctl.run(case['schedule'])
     return {'site': site, 'records': ctl.records, 'baselines': baselines, 'trace': ctl.trace, 'aborted': ctl.aborted,
             'events': list(S.EVENTS),
@@ -258,10 +275,10 @@ def destructive_stage(plan):
 def in_snaps(rec):
     """[(sub-request index, stage, snapshot)] of the ':in' snapshots (taken before the stage's ops)."""
     out = []
-    for s in rec['snaps']:
+    for j, s in enumerate(rec['snaps']):
         st, io = s['stage'].split(':')
         if io == 'in':
-            out.append((s.get('sub', 0), st, s))
+            out.append((s.get('sub', 0), st, s, j))
     return out
 
 
@@ -287,10 +304,55 @@ def _is_collection(o):
     return isinstance(o, MUTABLE) or hasattr(o, '__dict__')
 
 
-PRIORITY = ['aliases_class_level', 'aliases_other_request', 'history_dependent', 'foreign_entry_visible',
-            'token_crossed', 'foreign_hook_ran', 'class_state_changed', 'serving_not_cleared', 'serving_not_loaded',
+PRIORITY = ['aliases_class_level', 'aliases_other_request', 'shared_state_changed', 'history_dependent', 'foreign_entry_visible',
+            'token_crossed', 'foreign_hook_ran', 'class_state_changed', 'serving_not_cleared', 'thread_not_idle',
+            'serving_not_loaded',
             'token_lost', 'thread_local_broken', 'app_settings_crossed', 'app_state_changed',
             'response_history_dependent', 'own_mutation_lost', 'stages_differ', 'escaped']
+
+
+RELEASE_SKIPPED = ('%s: an `after_request` listener of the engine failed and Application.release_serving gave up before '
+                   'req.close() and cherrypy.serving.clear(): the thread still holds %s')
+
+
+LEFTOVER = ['released_show_tracebacks']
+
+
+def _clean(st):
+    """Is this idle state of a thread what the statement demands?  After a WSGI call that an exception escaped from
+    (the server never got a response object it could close) the trapper's `released_show_tracebacks` may still be
+    there: the next call drops it before any request can see it (that part stays checked: `serving_not_loaded`)."""
+    serving = st['serving']
+    if st.get('prev_escaped') and serving == LEFTOVER:
+        serving = []
+    return serving == [] and st['default'] and st['app_none'] and not st['adhoc']
+
+
+def _faults_txt(plan, rec):
+    if not plan.get('faults'):
+        return ''
+    return ', faults planned %s fired %s' % ([(f['at'], f['exc']) for f in plan['faults']], rec.get('faults_fired'))
+
+
+def _idle_and_deep(who, rec):
+    """Between requests a thread owns nothing; no call changes long-lived shared state."""
+    bad = []
+    for when in ('idle_before', 'idle_after'):
+        st = rec.get(when)
+        if st and not _clean(st):
+            if when == 'idle_after' and (st['serving'] != [] or not st['default'] or rec.get('release_skipped')):
+                continue            # reported as serving_not_cleared / release_skipped
+            bad.append(('%s: %s it the thread is not idle: cherrypy.serving holds %s, default objects in place: %s, '
+                        'cherrypy.request.app is None: %s, ad-hoc attributes %s'
+                        % (who, 'before' if when == 'idle_before' else 'after', st['serving'], st['default'],
+                           st['app_none'], st['adhoc']), 'thread_not_idle:' + when.split('_')[1]))
+    if rec.get('deep_diff'):
+        d = rec['deep_diff']
+        key = d[0].split(':')[0].split('/')[1] if d else '?'
+        key = re.sub(r'app\d+ ', 'app ', key)
+        key = ' '.join(key.split(' ')[:2])
+        bad.append(('%s changed long-lived shared state: %s' % (who, '; '.join(d)), 'shared_state_changed:' + key))
+    return bad
 
 
 def oracle(case, res):
@@ -324,16 +386,15 @@ def _oracle(case, res):
         dstage = destructive_stage(plan)
         # (1) initial observation == first-request baseline for this URL
         mine, base = in_snaps(rec), in_snaps(brec)
-        if [(a, b) for a, b, _ in mine] != [(a, b) for a, b, _ in base] and dstage is None:
+        if [m[:2] for m in mine] != [m[:2] for m in base] and dstage is None:
             bad.append(('request %d (%s %s): stages observed %s, baseline %s'
-                        % (i, plan['path'], tok, [(a, b) for a, b, _ in mine], [(a, b) for a, b, _ in base]),
-                        'stages_differ'))
-        for (sub, st, snap), (bsub, bst, bsnap) in zip(mine, base):
+                        % (i, plan['path'], tok, [m[:2] for m in mine], [m[:2] for m in base]), 'stages_differ'))
+        fd = rec.get('first_destructive')
+        for (sub, st, snap, j), (bsub, bst, bsnap, _bj) in zip(mine, base):
             if (sub, st) != (bsub, bst):
                 break
-            exact = dstage is None or STAGE_ORDER[st] <= dstage
-            if st == 'start':
-                pass
+            # exact comparison until the request's own first destructive op (stages may repeat after a fault)
+            exact = fd is None or j <= fd
             if exact:
                 a = normalise(snap['contents'], tok)
                 b = normalise(bsnap['contents'], btok)
@@ -355,6 +416,8 @@ def _oracle(case, res):
                 elif val is not None and isinstance(val, str) and foreign_tokens(val, tok):
                     bad.append(('request %d (%s) at %s: channel %s shows token of another request: %s'
                                 % (i, tok, st, ch, val), 'token_crossed:' + ch))
+                elif ch == 'resp' and val == 'UNMARKED':
+                    pass
                 elif ch in ('proxy.qs', 'serving.qs', 'environ', 'header', 'resp') and (val is None or tok not in val):
                     bad.append(('request %d (%s) at %s: channel %s lost the request: %r' % (i, tok, st, ch, val),
                                 'token_lost:' + ch))
@@ -388,8 +451,11 @@ def _oracle(case, res):
                     bad.append(('request %d (%s): own %s at %s not visible to itself' % (i, tok, o['op'], st),
                                 'own_mutation_lost:' + o['op']))
         # (4) response
-        if rec['exc']:
+        if rec['exc'] and not plan.get('faults'):
             bad.append(('request %d (%s): exception escaped the WSGI stack: %s' % (i, tok, rec['exc']), 'escaped'))
+        elif (rec['exc'] or '').split(':')[0] != (brec['exc'] or '').split(':')[0]:
+            bad.append(('request %d (%s, faults %s): %s escaped the WSGI stack, as the first request ever: %s'
+                        % (i, tok, plan.get('faults'), rec['exc'], brec['exc']), 'response_history_dependent'))
         if rec['body'] is not None and foreign_tokens(rec['body'], tok):
             bad.append(('request %d (%s): body carries another request: %s' % (i, tok, rec['body'][:200]),
                         'token_crossed:body'))
@@ -412,9 +478,15 @@ def _oracle(case, res):
                 bad.append(('request %d (%s) ran hook %s attached by request %s' % (i, tok, marker, own),
                             'foreign_hook_ran'))
         # (6) the thread's serving container is empty again afterwards
-        if rec['serving_after'] != [] or not rec['default_after']:
-            bad.append(('after request %d (%s) cherrypy.serving still holds %s (default objects restored: %s)'
-                        % (i, tok, rec['serving_after'], rec['default_after']), 'serving_not_cleared'))
+        if rec.get('release_skipped'):
+            bad.append((RELEASE_SKIPPED % ('request %d (%s%s)' % (i, tok, _faults_txt(plan, rec)), rec['serving_after']),
+                        'release_skipped:after_request_listener'))
+        elif (rec['serving_after'] != [] or not rec['default_after']) and not _clean(rec['idle_after']):
+            bad.append(('after request %d (%s%s) cherrypy.serving still holds %s (default objects restored: %s)'
+                        % (i, tok, _faults_txt(plan, rec), rec['serving_after'], rec['default_after']),
+                        'serving_not_cleared'))
+        bad.extend(_idle_and_deep('request %d (app %d %s, %s%s)' % (i, plan['app'], plan['path'], tok,
+                                                                   _faults_txt(plan, rec)), rec))
         # (7) object identity: no per-request collection is shared with another request or class level
         for (stage, objs), snap in zip(rec['objs'], rec['snaps']):
             sub = snap.get('sub', 0)
@@ -446,9 +518,13 @@ def _oracle(case, res):
                 elif prev[:2] != (bp['token'], sub):
                     bad.append(('baseline request %s at %s: %s IS the same object as %s of request %s'
                                 % (bp['path'], stage, slot, prev[2], prev[0]), 'aliases_other_request:' + slot.split('.')[0]))
-        if brec['serving_after'] != [] or not brec['default_after']:
-            bad.append(('after baseline request %s cherrypy.serving still holds %s' % (bp['path'], brec['serving_after']),
-                        'serving_not_cleared'))
+        if brec.get('release_skipped'):
+            bad.append((RELEASE_SKIPPED % ('first request (app %d %s%s)' % (bp['app'], bp['path'], _faults_txt(bp, brec)),
+                                           brec['serving_after']), 'release_skipped:after_request_listener'))
+        elif (brec['serving_after'] != [] or not brec['default_after']) and not _clean(brec['idle_after']):
+            bad.append(('after baseline request %s%s cherrypy.serving still holds %s'
+                        % (bp['path'], _faults_txt(bp, brec), brec['serving_after']), 'serving_not_cleared'))
+        bad.extend(_idle_and_deep('first request (app %d %s%s)' % (bp['app'], bp['path'], _faults_txt(bp, brec)), brec))
     # (8) class-level / process-level state untouched
     for label, fp in (('after the first requests', json.loads(res['class_after_baseline'])),
                       ('after the history', res['class_after'])):
